@@ -2,6 +2,7 @@ import VoluteModel.Lemmas.CanonCert
 import VoluteModel.Lemmas.Cmp
 import VoluteModel.Lemmas.WFLemmas
 import VoluteModel.Props.C08
+import VoluteModel.Lemmas.SeqCore
 
 /-!
 # The canonization walks: minimum over the visited tables, certificate of the result
@@ -49,17 +50,6 @@ theorem ltT_irrefl (a : Array W) : ltT a a = false := by
   unfold ltT cmpTables; rw [lexCmp_self]; rfl
 
 /-! ## masks along the flip walk -/
-
-def xorFlips (flips : List Nat) : Nat := flips.foldl (fun a f => a ^^^ (1 <<< f)) 0
-
-theorem xorFlips_foldl (flips : List Nat) (m : Nat) :
-    flips.foldl (fun a f => a ^^^ (1 <<< f)) m = m ^^^ xorFlips flips := by
-  induction flips generalizing m with
-  | nil => simp [xorFlips]
-  | cons f fs ih =>
-    simp only [List.foldl_cons, xorFlips]
-    rw [ih, ih (0 ^^^ 1 <<< f)]
-    simp [Nat.xor_assoc]
 
 theorem certAfter_macroN (n : Nat) (p : Array Nat) (m : Nat) (flips : List Nat) :
     certAfter n (p, m) (macroN flips).flatten = (p, m ^^^ xorFlips flips) := by
